@@ -44,6 +44,17 @@ func (f *vtr) Call(s *slip.Scope, args slip.List, depth int) slip.Object {
 
 type vout struct{ slip.Function }
 
+// c8n is (c8n): the harness's evaluation number, an input that differs from one evaluation of
+// a code object to the next (the reeval monitor sets it before every evaluation), so that a
+// VALUE cached in a form instead of the form's compiled code shows.
+type c8n struct{ slip.Function }
+
+var c8epoch int64
+
+func (f *c8n) Call(s *slip.Scope, args slip.List, depth int) slip.Object {
+	return slip.Fixnum(c8epoch)
+}
+
 func (f *vout) Call(s *slip.Scope, args slip.List, depth int) slip.Object {
 	slip.CheckArgCount(s, depth, f, args, 1, 1)
 	outVal, outSet = args[0], true
@@ -69,6 +80,13 @@ func initWorker() {
 		&slip.FuncDoc{Name: "vtr", Kind: slip.FunctionSymbol, Return: "object",
 			Args: []*slip.DocArg{{Name: "k", Type: "fixnum"}, {Name: "value", Type: "object"}},
 			Text: "verification trace marker: records k, returns value"}, &slip.UserPkg)
+	slip.Define(
+		func(args slip.List) slip.Object {
+			f := c8n{Function: slip.Function{Name: "c8n", Args: args}}
+			f.Self = &f
+			return &f
+		},
+		&slip.FuncDoc{Name: "c8n", Kind: slip.FunctionSymbol, Return: "fixnum", Text: "verification: the number of the evaluation under way"}, &slip.UserPkg)
 	slip.Define(
 		func(args slip.List) slip.Object {
 			f := vout{Function: slip.Function{Name: "vout", Args: args}}
